@@ -67,6 +67,7 @@ type unitCfg struct {
 	NoNativeCovers bool        `json:"noNativeCovers"`
 	ParallelEntries int        `json:"parallelEntries"`
 	Solver   string            `json:"solver"`
+	NativeRetries int          `json:"nativeRetries"` // findings that depend on Go's random map order: re-run natively up to N times
 }
 
 type propCfg struct {
@@ -632,17 +633,24 @@ func (c *checker) judge(u *unitCfg, entry string, ex *explorer, native *nativeRu
 		rdir := filepath.Join(verifRoot, "replays", c.id)
 		os.MkdirAll(rdir, 0o755)
 		rpath := filepath.Join(rdir, fmt.Sprintf("%s-%s-%d.json", entry, sanitize(f.Label), n))
-		out, err := native.run(entry, f.Values, params, rpath)
+		var out *nativeOutcome
+		var err error
+		confirmed := false
+		for try := 0; try <= u.NativeRetries && !confirmed; try++ {
+			out, err = native.run(entry, f.Values, params, rpath)
+			if err != nil {
+				break
+			}
+			if f.Kind == "panic" {
+				confirmed = strings.HasPrefix(out.outcome, "panic")
+			} else {
+				confirmed = contains(out.events, "assert-fail "+f.Label)
+			}
+		}
 		c.replayed++
 		if err != nil {
 			c.engineErrors = append(c.engineErrors, fmt.Sprintf("%s: native replay: %v", key, err))
 			continue
-		}
-		confirmed := false
-		if f.Kind == "panic" {
-			confirmed = strings.HasPrefix(out.outcome, "panic")
-		} else {
-			confirmed = contains(out.events, "assert-fail "+f.Label)
 		}
 		if !confirmed {
 			os.Remove(rpath)
